@@ -230,10 +230,10 @@ func genSortCase(t *rapid.T) SortCase {
 	vg := &gen.ValGen{Zctx: zctx, Types: tg, Opts: gen.ValOpts{NullPercent: 15, MaxLen: 3}}
 	maxLen := 40
 	if vt.Thorough() {
-		maxLen = 160
+		maxLen = 120
 	}
 	n := 0
-	if rapid.IntRange(0, 24).Draw(t, "empty?") > 0 {
+	if rapid.IntRange(0, 99).Draw(t, "empty?") != 50 { // (rapid favours the ends of a range; 50 is drawn about 1% of the time)
 		n = rapid.IntRange(1, maxLen).Draw(t, "n")
 	}
 	c := SortCase{Seq: gen.Seq{Zctx: zctx}}
@@ -773,7 +773,7 @@ func showKeys(ks []zed.Value) string {
 
 var sortProp = &vt.Prop[SortCase]{
 	Name: "TestSortOp",
-	Rule: "case = (sequence of 0..40 (thorough 160) values: records of 1..3 shapes over fields {p,k1,k2,k3} in drawn order with a hidden ordinal field, key columns drawn from small pools of mixed-type values incl. nulls, " +
+	Rule: "case = (sequence of 0..40 (thorough 120) values: records of 1..3 shapes over fields {p,k1,k2,k3} in drawn order with a hidden ordinal field, key columns drawn from small pools of mixed-type values incl. nulls, " +
 		"absent fields = missing keys; or top-level values of mixed types), sort spec (0..3 keys, asc/desc/unspecified per key, -r, -nulls first|last), generated batch boundaries; " +
 		"the program `sort ...` runs through compiler+runtime at sort.MemMaxBytes in {1, 64, 1024, 128Mi}; each output must be a permutation of the input equal to the stable sort of the input under the " +
 		"repo's single-key comparators composed lexicographically as documented, and all four outputs must be identical. Non-trivial: >=2 distinct types in the first key column, or a spill happened, or ties exist.",
